@@ -53,6 +53,12 @@ class PipeScenario(Scenario):
             return up.filter(lambda x: True)
         if name == "flatten":
             return up.map(lambda x: (x,)).flatten()
+        if name == "starmap":
+            return up.map(lambda x: (x, 0)).starmap(lambda a, b: a)
+        if name == "union":
+            from streamz import Stream
+            self._idle = Stream(asynchronous=up.asynchronous, loop=up.loop) if up.loop is not None else Stream()
+            return up.union(self._idle)
         if name == "flatten2":       # two pieces per element: (x, 'a') then (x, 'b')
             return up.map(lambda x: ((x, "a"), (x, "b"))).flatten()
         if name == "accumulate_nostart":    # first element takes the "state is no_default" branch
